@@ -8,7 +8,7 @@ CFG = {
              "plus random triples over a 34-name pool (prefix-only names, nested and re-forming legacy prefixes, non-ASCII, suffix-shaped names, "
              "groups on both sides, dangling kerning keys, missing groups/kerning files, interned non-glyph names); plus validator boundary "
              "maps through Font::save and format-3 loads. Every save goes through Font::save, Font::save_with_options(default) and save_with_options(custom); "
-             "every random/validator load (every third exhaustive one) through Font::load and three of 13 DataRequest shapes in rotation (kerning off / groups off / both / lib off / layers off / none()+single switches / both builder orders / toggled switches; what is not requested counts as an absent file for model and specification); a 30-name self-similar pool (kerning prefix repeated 2-4x, other side's prefix, proper prefixes/suffixes of the prefix, legacy marker + new-style prefix) goes through all save entry points, format-3 loads and legacy loads under all 14 shapes. non-trivial = a legacy load with at least one group to duplicate, or a map "
+             "every random/validator load (every third exhaustive one) through Font::load and three of 13 DataRequest shapes in rotation (kerning off / groups off / both / lib off / layers off / none()+single switches / both builder orders / toggled switches; what is not requested counts as an absent file for model and specification); 108 near-prefix names (both prefixes cut at byte 10..15 followed by a 2/3/4-byte character) through all save entry points and loads; a 30-name self-similar pool (kerning prefix repeated 2-4x, other side's prefix, proper prefixes/suffixes of the prefix, legacy marker + new-style prefix) goes through all save entry points, format-3 loads and legacy loads under all 14 shapes. non-trivial = a legacy load with at least one group to duplicate, or a map "
              "holding a public.kern1./public.kern2. group; distinct by input tokens"),
     "exhaustive": {"quick": True, "thorough": True},
     "search_timeout": 200,
